@@ -54,7 +54,7 @@ def snapshot_ids(doc):
         if not K.is_container(node):
             scalars[pos] = K.scalar_canon(node)
         if isinstance(node, dict) and not K._is_set(node):
-            for k in node.keys():
+            for k, _v in K.own_items(node):
                 key_ids[(pos, K.tok(k))] = id(k)
     return node_ids, key_ids, scalars
 
@@ -184,7 +184,7 @@ def classify_set(ctx):
         if K.is_ype(exc):
             out.append(("unexpected-%s@%s" % (name, where), "setting a matched node raised a YAMLPathException"))
         else:
-            line, loc = K.crash_site(exc)
+            _line, loc = K.crash_site(exc)
             data = loc.get("data")
             if name == "RuntimeError" and "mutated during iteration" in str(exc):
                 if any(kid in matched_ids for kid in key_ids.values()):
@@ -197,7 +197,7 @@ def classify_set(ctx):
                 else:
                     out.append(("mutated-during-iteration@%s" % where,
                                 "the edit changed a container the path search was still iterating"))
-            elif where.endswith(":recurse") and "discard" in (line or "") and K._is_set(data):
+            elif where.endswith(":recurse") and K._is_set(data):     # the set arm: discard(old) / add(new)
                 if data is not loc.get("parent"):
                     out.append(("unrelated-yaml-set-in-document-crashes-set_value",
                                 "the change routine discards the old value from EVERY YAML set of the document; "
@@ -452,6 +452,7 @@ def doc_paths(text):
                 other.append(base + "[0:2]")
             if len(node) >= 3:
                 other.append(base + "[1:3]")
+                other.append(base + "[-2:9]")
             other.append(base + "[.>0]")
     d4 = direct[:4]
     for p, q in itertools.product(d4, repeat=2):
@@ -782,7 +783,7 @@ def _set_chunk(cases):
             col.case()
             col.out_of_scope(r["oos"])
             continue
-        col.case(r["sig"], r["sample"] if (r["status"] == "ok" and (r["sig"][6] or "collector" in r["sig"][8])) else None)
+        col.case(r["sig"], r["sample"] if (r["status"] == "ok" and r["sig"][6]) else None)
         for key, what, obs, exp in r["witnesses"]:
             col.witness(key, what, {"kind": "set", "yaml": text, "path": path, "value": value}, obs, exp)
     return col.result(internal=True)
